@@ -25,7 +25,8 @@ theorem decFuel_succ2 (env : Env) (r : Reader) : ∃ f, decFuel env r = f + 1 + 
   refine ⟨decFuel env r - 2, ?_⟩
   have : 6 ≤ decFuel env r := by
     unfold decFuel
-    exact Nat.le_trans (by omega : 6 ≤ 3 * 2) (Nat.mul_le_mul (by omega) (by omega))
+    have : 3 * 2 ≤ (env.width + 3) * (r.data.size + 2) := Nat.mul_le_mul (by omega) (by omega)
+    omega
   omega
 
 /-- if the first member fails whatever its (reset) old value, `ReadFrom` fails the same way -/
@@ -250,9 +251,9 @@ theorem C05.twoInts_cost :
   rw [freshV]
   unfold decStructA
   simp only [findV]
-  have hF : decFuel envV (Reader.mk0 twoInts) = 30 + 1 + 1 + 1 + 1 + 1 + 1 := by rfl
+  have hF : decFuel envV (Reader.mk0 twoInts) = 31 + 1 + 1 + 1 + 1 + 1 + 1 := by rfl
   rw [hF]
-  have hr : resetDefault envV (30 + 1 + 1 + 1 + 1 + 1 + 1) [⟨0, true, .vec .i32, none⟩] [.list []] = [.list []] := by
+  have hr : resetDefault envV (31 + 1 + 1 + 1 + 1 + 1 + 1) [⟨0, true, .vec .i32, none⟩] [.list []] = [.list []] := by
     simp [resetDefault, zeroOf, zeroVal]
   rw [hr]
   have hs : skipToNoCheck 0 true (Reader.mk0 twoInts) = (.ok (true, tyLIST), ⟨twoInts.toArray, 1⟩) := by rfl
